@@ -24,7 +24,11 @@ CONSTANTS CW, CH,     \* canvas size in mm
 \* ---------------------------------------------------------------------------------------------
 \* tables
 \* ---------------------------------------------------------------------------------------------
-Sub(pts, closed) == [p |-> pts, c |-> closed]
+\* a sub-path: points p, closed flag c, and per point arc[i] = <<r, large, sweep>>: r = 0 a line to p[i], r > 0 a circular arc of
+\* radius r from p[i-1] to p[i] (SVG flags; sweep = 1 counter-clockwise with the y axis up)
+SubA(pts, closed, arcs) == [p |-> pts, c |-> closed, arc |-> arcs]
+Sub(pts, closed) == SubA(pts, closed, [i \in 1..Len(pts) |-> <<0,0,0>>])
+ISub(pts, closed) == [p |-> pts, c |-> closed]                       \* sub-paths of the interpreters (lines only)
 Shapes == <<
   << Sub(<<<<0,0>>,<<4,0>>,<<4,3>>>>, TRUE) >>,                                   \* 1 triangle 3-4-5
   << Sub(<<<<0,0>>,<<3,0>>,<<3,2>>,<<0,2>>>>, TRUE) >>,                           \* 2 rectangle
@@ -40,8 +44,11 @@ Shapes == <<
   << Sub(<<<<0,0>>,<<4,0>>,<<4,4>>,<<0,4>>>>, TRUE),
      Sub(<<<<2,1>>,<<2,3>>,<<4,3>>,<<4,1>>>>, TRUE) >>,                           \* 10 hole touching the outer edge
   << Sub(<<<<0,0>>,<<2,0>>,<<2,3>>>>, FALSE),
-     Sub(<<<<3,1>>,<<4,1>>,<<4,4>>,<<3,4>>>>, TRUE) >>                            \* 11 two sub-paths, the FIRST one left open (filled as implicitly closed)
+     Sub(<<<<3,1>>,<<4,1>>,<<4,4>>,<<3,4>>>>, TRUE) >>,                           \* 11 two sub-paths, the FIRST one left open (filled as implicitly closed)
+  << SubA(<<<<0,0>>,<<2,0>>,<<2,2>>,<<0,2>>>>, TRUE, <<<<0,0,0>>,<<0,0,0>>,<<1,0,1>>,<<0,0,0>>>>) >>,            \* 12 D-shape: half circle, centre (2,1)
+  << SubA(<<<<0,0>>,<<2,0>>,<<3,1>>,<<2,2>>,<<0,2>>>>, TRUE, <<<<0,0,0>>,<<0,0,0>>,<<1,0,1>>,<<0,0,0>>,<<0,0,0>>>>) >>  \* 13 quarter circle, then a line back to the x of the arc's start
 >>
+HasArc(sh) == \E j \in 1..Len(sh) : \E i \in 1..Len(sh[j].p) : sh[j].arc[i][1] > 0
 NShapes == Len(Shapes)
 
 Views == <<
@@ -52,7 +59,8 @@ Views == <<
   <<-1,0,5,0,1,0>>,            \* 5 reflection x -> 5 - x
   MSh(1,0),                    \* 6 shear (not a similarity)
   MSc(2,1),                    \* 7 anisotropic scale (not a similarity)
-  <<0,-2,9,2,0,0>>             \* 8 rotation by 90 degrees and scale 2
+  <<0,-2,9,2,0,0>>,            \* 8 rotation by 90 degrees and scale 2
+  <<2,-1,3,2,1,0>>             \* 9 rotation by 45 degrees after scale (2 sqrt 2, sqrt 2): rows of equal length but NOT orthogonal (columns are): not a similarity
 >>
 NViews == Len(Views)
 
@@ -87,11 +95,16 @@ Header == [hdr |-> TRUE, W |-> CW, H |-> CH, shapes |-> Shapes, views |-> Views,
 \* ---------------------------------------------------------------------------------------------
 \* draws and programs
 \* ---------------------------------------------------------------------------------------------
-RawDraws == IF Profile = "c12"
-  THEN [shape: 1..6, view: 1..6, cs: {0}, fill: {"none","black","red","redh","dred"}, stroke: {"none","blue","blueh","red"},   \* 933 120 draws: TLC enumerates sets up to 10^6
-        width: {1,2}, cap: 0..2, join: 0..5, dash: 0..2, off: {-1,0,1}, rule: {0,1}, img: {0,0,1}]
-  ELSE [shape: 1..NShapes, view: {1,2,3,4,5,6,8}, cs: 0..3, fill: {"none","red","green","grey","black","ggrey"}, stroke: {"none","none","blue"},
-        width: {1,2}, cap: {0}, join: {2,3}, dash: {0}, off: {0}, rule: 0..3, img: {0}]
+\* C12: the style part and the geometry part are sampled separately (their product has > 10^6 elements, TLC's limit for enumerated sets)
+StyleSetC12 == [fill: {"none","black","red","redh","dred"}, stroke: {"none","blue","blueh","red"},
+                width: {1,2}, cap: 0..2, join: 0..5, dash: 0..2, off: {-1,0,1}, rule: {0,1}, img: {0,1}]
+C12Shapes == {1,2,3,4,5,6,12,13}
+C12Views == {1,2,3,4,5,6,7,9}
+GeomC12(arcs) == [shape: IF arcs THEN C12Shapes ELSE {1,2,3,4,5,6}, view: C12Views]
+Mk(st, g) == [shape |-> g.shape, view |-> g.view, cs |-> 0, fill |-> st.fill, stroke |-> st.stroke, width |-> st.width, cap |-> st.cap,
+              join |-> st.join, dash |-> st.dash, off |-> st.off, rule |-> st.rule, img |-> st.img]
+RawDraws == [shape: 1..11, view: {1,2,3,4,5,6,8}, cs: 0..3, fill: {"none","red","green","grey","black","ggrey"}, stroke: {"none","none","blue"},
+             width: {1,2}, cap: {0}, join: {2,3}, dash: {0}, off: {0}, rule: 0..3, img: {0}]             \* C14 scenes
 \* a draw without fill and stroke records nothing (Context.DrawPath returns): repaired to a black fill
 \* (a dash offset without a dash array is kept out of the bulk programs: the pdf back-end does not terminate on a negative one --
 \*  the programs of Mode "solidoff" exercise exactly that, in a child process)
@@ -170,7 +183,7 @@ EPaint(kind, j, d) ==
       sc == ScaleL(q)
       dl == ScaleSeq(DashArr(d.dash), d.width)            \* canvas scales dashes by the stroke width (rasterizer.go, ScaleDash)
       dn == DashN(ScaleSeq(dl, sc), d.off * d.width * sc)
-  IN [kind |-> kind, draw |-> j, shape |-> d.shape,
+  IN [kind |-> kind, draw |-> j, shape |-> d.shape, curved |-> HasArc(Shapes[d.shape]),
       geom |-> IF kind = "image" THEN NoGeom ELSE Xform(m, Shapes[d.shape]),
       rule |-> d.rule, col |-> PaintTab[pn].rgb, a |-> IF kind = "image" THEN 255 ELSE PaintTab[pn].a,
       pen |-> PenForm(d.width, q), lin |-> q, sim |-> IntSim(q),
@@ -215,9 +228,9 @@ OpMat(a) == <<a[1], a[3], a[5], a[2], a[4], a[6]>>
 
 \* ---- path construction (points are transformed by the CTM when they are added, as in PDF and PostScript) -------
 LastSub(p) == p.subs[Len(p.subs)]
-AddMove(p, pt) == [p EXCEPT !.subs = Append(p.subs, Sub(<<pt>>, FALSE))]
+AddMove(p, pt) == [p EXCEPT !.subs = Append(p.subs, ISub(<<pt>>, FALSE))]
 AddLine(p, pt) == IF p.subs = <<>> THEN [p EXCEPT !.og = TRUE]               \* no current point
-                  ELSE IF LastSub(p).c THEN [p EXCEPT !.subs = Append(p.subs, Sub(<<LastSub(p).p[1], pt>>, FALSE))]
+                  ELSE IF LastSub(p).c THEN [p EXCEPT !.subs = Append(p.subs, ISub(<<LastSub(p).p[1], pt>>, FALSE))]
                   ELSE [p EXCEPT !.subs[Len(p.subs)].p = Append(@, pt)]
 AddClose(p) == IF p.subs = <<>> THEN p ELSE [p EXCEPT !.subs[Len(p.subs)].c = TRUE]
 AddCurve(p) == [p EXCEPT !.og = TRUE]
@@ -225,12 +238,13 @@ AddCurve(p) == [p EXCEPT !.og = TRUE]
 \* ---- performed paints --------------------------------------------------------------------------
 FillP(p, rule, col, a, ev) == [kind |-> "fill", subs |-> p.subs, og |-> p.og, rule |-> rule, col |-> col, a |-> a,
                                w |-> 0, lin |-> <<1,0,0,1>>, cap |-> 0, jk |-> "", ml |-> 0, dash |-> <<>>, ph |-> 0, ko |-> FALSE,
-                               o |-> IF rule = 1 THEN ev.oe ELSE ev.o, onz |-> ev.o, ou |-> IF rule = 1 THEN ev.oue ELSE ev.ou, ounz |-> ev.ou, F |-> MId]
-StrokeP(p, g, jk, ko) == [kind |-> "stroke", subs |-> p.subs, og |-> p.og, rule |-> 0, col |-> g.sc, a |-> g.sa,
+                               o |-> IF rule = 1 THEN ev.oe ELSE ev.o, fo |-> IF rule = 1 THEN ev.foe ELSE ev.fo, so |-> <<>>, onz |-> ev.o, ou |-> IF rule = 1 THEN ev.oue ELSE ev.ou, ounz |-> ev.ou, F |-> MId]
+StrokePS(p, g, jk, ko, so) == [kind |-> "stroke", subs |-> p.subs, og |-> p.og, rule |-> 0, col |-> g.sc, a |-> g.sa,
                           w |-> g.w, lin |-> Lin(g.ctm), cap |-> g.cap, jk |-> jk, ml |-> g.ml, dash |-> g.dash, ph |-> g.ph, ko |-> ko,
-                          o |-> <<>>, onz |-> <<>>, ou |-> <<>>, ounz |-> <<>>, F |-> MId]
+                          o |-> <<>>, fo |-> <<>>, so |-> so, onz |-> <<>>, ou |-> <<>>, ounz |-> <<>>, F |-> MId]
+StrokeP(p, g, jk, ko) == StrokePS(p, g, jk, ko, <<>>)
 ImageP(F, a) == [kind |-> "image", subs |-> <<>>, og |-> FALSE, rule |-> 0, col |-> <<0,0,0>>, a |-> a, w |-> 0, lin |-> <<1,0,0,1>>,
-                 cap |-> 0, jk |-> "", ml |-> 0, dash |-> <<>>, ph |-> 0, ko |-> FALSE, o |-> <<>>, onz |-> <<>>, ou |-> <<>>, ounz |-> <<>>, F |-> F]
+                 cap |-> 0, jk |-> "", ml |-> 0, dash |-> <<>>, ph |-> 0, ko |-> FALSE, o |-> <<>>, fo |-> <<>>, so |-> <<>>, onz |-> <<>>, ou |-> <<>>, ounz |-> <<>>, F |-> F]
 
 \* ---- comparison of a performed paint with a requested paint ------------------------------------------
 RECURSIVE Dedup(_)
@@ -257,6 +271,9 @@ OutlineWhy(lang, p, e) == IF e.draw \notin Range(p.o) THEN "outline-region"
 MatchWhy(lang, p, e) ==
   CASE e.kind = "image" -> IF p.kind # "image" THEN "kind" ELSE IF p.F # e.F THEN "image-matrix"
                            ELSE IF AlphaBad(lang, p, e) THEN "alpha" ELSE ""
+    [] e.kind = "fill" /\ e.curved ->                              \* a shape with arcs: the filled REGION is compared (by the harness, at sample points)
+                           IF p.kind # "fill" THEN "kind" ELSE IF e.draw \notin Range(p.fo) THEN "geometry-region"
+                           ELSE IF ~ColOK(p, e) THEN "colour" ELSE IF AlphaBad(lang, p, e) THEN "alpha" ELSE ""
     [] e.kind = "fill"  -> IF p.kind # "fill" THEN "kind" ELSE IF p.og THEN "geometry-offgrid"
                            ELSE IF ~SameFillGeom(p.subs, e.geom) THEN "geometry"
                            ELSE IF ~RuleSame(e.shape, p.rule, e.rule) THEN "fill-rule"
@@ -264,8 +281,9 @@ MatchWhy(lang, p, e) ==
     [] e.kind = "stroke" ->
          IF p.kind = "fill" THEN OutlineWhy(lang, p, e)              \* explicit outline instead of a native stroke
          ELSE IF p.kind # "stroke" THEN "kind"
-         ELSE IF p.og THEN "geometry-offgrid"
-         ELSE IF ~SameStrokeGeom(p.subs, e.geom, e.dashed) THEN "geometry"
+         ELSE IF e.curved /\ e.draw \notin Range(p.so) THEN "geometry-curve"     \* the stroked curve is compared by the harness
+         ELSE IF ~e.curved /\ p.og THEN "geometry-offgrid"
+         ELSE IF ~e.curved /\ ~SameStrokeGeom(p.subs, e.geom, e.dashed) THEN "geometry"
          ELSE IF ~ColOK(p, e) THEN "colour" ELSE IF AlphaBad(lang, p, e) THEN "alpha"
          ELSE IF p.ko /\ p.a # 255 THEN "knockout"
          ELSE IF PenForm(p.w, p.lin) # e.pen THEN "width"
@@ -383,7 +401,7 @@ PdfJoinKind(g) == CASE g.join = 0 -> "miter" [] g.join = 1 -> "round" [] g.join 
 PdfPaints(p, g, ev) ==
   LET pc == AddClose(p)
       fl(r) == FillP(p, r, g.fc, g.fa, ev)
-      st(q, ko) == StrokeP(q, g, PdfJoinKind(g), ko)
+      st(q, ko) == StrokePS(q, g, PdfJoinKind(g), ko, ev.so)
   IN CASE ev.op \in {"f", "F"} -> <<fl(0)>>
        [] ev.op = "f*" -> <<fl(1)>>
        [] ev.op = "S"  -> <<st(p, FALSE)>>
@@ -457,7 +475,7 @@ PsCall(ev) == /\ be = "ps" /\ ev.op \in Range(ext) /\ path' = AddCurve(path) /\ 
 PsPaint(ev) == /\ be = "ps" /\ ev.op \in PsPaintOps
                /\ painted' = CASE ev.op = "fill" -> <<FillP(path, 0, gs.fc, 255, ev)>>
                                [] ev.op = "eofill" -> <<FillP(path, 1, gs.fc, 255, ev)>>
-                               [] ev.op = "stroke" -> <<StrokeP(path, [gs EXCEPT !.sa = 255], PdfJoinKind(gs), FALSE)>>
+                               [] ev.op = "stroke" -> <<StrokePS(path, [gs EXCEPT !.sa = 255], PdfJoinKind(gs), FALSE, ev.so)>>
                /\ k' = k + 1 /\ path' = Path0 /\ bad' = IF gs.unit THEN "" ELSE "bounding-box-missing"
                /\ UNCHANGED <<be, pid, prog, queue, gs, stk, ext>>
 \* image: a = <<Width, Height, ImageMatrix(6)>>; the unit square of user space is the image when ImageMatrix = [w 0 0 -h 0 h]
@@ -552,7 +570,7 @@ SvgPaints(ev) ==
                        !.ph = Num1(Eff(pr, "stroke-dashoffset")),
                        !.ctm = tot]
   IN (IF f.t = "none" THEN <<>> ELSE <<FillP(p, rule, IF f.t = "color" /\ f.g = 1 THEN SubSeq(f.v, 1, 3) ELSE <<-1,-1,-1>>, fa, ev)>>)
-     \o (IF s.t = "none" THEN <<>> ELSE <<StrokeP(p, g, SvgJoinKind(Eff(pr, "stroke-linejoin").s), FALSE)>>)
+     \o (IF s.t = "none" THEN <<>> ELSE <<StrokePS(p, g, SvgJoinKind(Eff(pr, "stroke-linejoin").s), FALSE, ev.so)>>)
 SvgRoot(ev) == /\ be = "svg" /\ ev.op = "svg" /\ painted' = <<>>
                /\ IF ev.g = 1 /\ ev.a = <<CW, CH>> /\ ev.s = "mm" /\ ev.vb = <<0, 0, CW, CH>> THEN bad' = "" /\ gs' = [gs EXCEPT !.unit = TRUE]
                   ELSE bad' = "svg-size-or-viewbox" /\ UNCHANGED gs
@@ -586,7 +604,7 @@ Unknown(ev) == /\ ev.op \notin KnownOps(be) /\ bad' = "unknown-operator:" \o ev.
 \* ---------------------------------------------------------------------------------------------
 RECURSIVE Cat(_)
 Cat(ss) == IF ss = <<>> THEN <<>> ELSE Head(ss) \o Cat(Tail(ss))
-E(op, a) == [op |-> op, a |-> a, g |-> 1, s |-> "", o |-> <<>>, oe |-> <<>>, ou |-> <<>>, oue |-> <<>>, ph |-> 0, u |-> 0]
+E(op, a) == [op |-> op, a |-> a, g |-> 1, s |-> "", o |-> <<>>, oe |-> <<>>, ou |-> <<>>, oue |-> <<>>, fo |-> <<>>, foe |-> <<>>, so |-> <<>>, ph |-> 0, u |-> 0]
 EBegin(lang, id, x) == [op |-> "BEGIN", be |-> lang, id |-> id, W |-> CW, H |-> CH, ext |-> x]
 RefExt == << [n |-> "A255", CA |-> 255, ca |-> 255], [n |-> "A128", CA |-> 128, ca |-> 128] >>
 GsName(a) == IF a = 255 THEN "A255" ELSE "A128"
@@ -615,7 +633,7 @@ RefPsPaint(e, d) ==
           \o RefPathPdf(Shapes[d.shape], "moveto", "lineto", "closepath") \o <<E("stroke", <<>>), E("grestore", <<>>)>>
     [] OTHER -> <<E("setrgbcolor", e.col), E("ellipse", <<>>), [E("fill", <<>>) EXCEPT !.o = <<e.draw>>]>>
 P(n, t, v, s) == [n |-> n, src |-> "style", t |-> t, v |-> v, s |-> s, g |-> 1]
-SvgEl(pr, d, tf, o) == [op |-> "path", pr |-> pr, d |-> d, tf |-> tf, tm |-> <<1,0,0,1,0,0>>, tmg |-> 0, o |-> o, oe |-> o, ou |-> <<>>, oue |-> <<>>, a |-> <<>>, g |-> 1, s |-> ""]
+SvgEl(pr, d, tf, o) == [op |-> "path", pr |-> pr, d |-> d, tf |-> tf, tm |-> <<1,0,0,1,0,0>>, tmg |-> 0, o |-> o, oe |-> o, ou |-> <<>>, oue |-> <<>>, fo |-> <<>>, foe |-> <<>>, so |-> <<>>, a |-> <<>>, g |-> 1, s |-> ""]
 SvgD(sh) == Cat([j \in 1..Len(sh) |-> [i \in 1..Len(sh[j].p) |-> [c |-> IF i = 1 THEN "M" ELSE "L", a |-> sh[j].p[i], g |-> 1]]
                                     \o (IF sh[j].c THEN <<[c |-> "z", a |-> <<>>, g |-> 1]>> ELSE <<>>)])
 \* transform="matrix(..)" expressing the draw matrix in SVG coordinates: Flip . T = M . Flip'  where local y is flipped about 0
@@ -652,9 +670,9 @@ mvars == <<vars, mprog, mlang, mtrace, gprog, gdone>>
 Idle == mprog = <<>> /\ mlang = "" /\ mtrace = <<>> /\ gprog = <<>> /\ gdone = TRUE       \* the variables of the other roles of this module
 MEv == mtrace[l]
 MHas == l <= Len(mtrace)
-MDraws == IF Mode = "mcfull" THEN {Fix(d) : d \in RawDraws} ELSE IF Mode = "mcq" THEN SubStylesMid ELSE SubStylesBig
+MDraws == IF Mode = "mcfull" THEN {Fix(Mk(st, RandomElement(GeomC12(FALSE)))) : st \in RandomSubset(Num, StyleSetC12)} ELSE IF Mode = "mcq" THEN SubStylesMid ELSE SubStylesBig
 MInit == /\ IInit /\ l = 1 /\ mlang \in {"pdf", "ps", "svg"} /\ gprog = <<>> /\ gdone = TRUE
-         /\ mprog \in IF Mode = "mcfull" THEN {<<d>> : d \in RandomSubset(Num, MDraws)}
+         /\ mprog \in IF Mode = "mcfull" THEN {<<d>> : d \in MDraws}
                       ELSE {<<d>> : d \in MDraws} \cup {<<c, d>> : c \in RandomSubset(Num, MDraws), d \in RandomSubset(Num, MDraws)}
          /\ mtrace = RefTrace(mlang, mprog)
 Adv == l' = l + 1 /\ UNCHANGED <<mprog, mlang, mtrace, gprog, gdone>>
@@ -678,6 +696,8 @@ ASSUME PrintT("@@" \o ToJson(Header))
 Progs == IF Mode = "hdr" THEN {<<>>} ELSE IF Mode = "solidoff" THEN {<<d>> : d \in SolidOff} ELSE IF Mode = "sub2" THEN {<<d>> : d \in SubStyles} \cup (IF Num = 0 THEN {<<c, d>> : c \in SubStyles, d \in SubStyles}
                                                                 ELSE RandomSubset(Num, {<<c, d>> : c \in SubStyles, d \in SubStyles}))
          ELSE IF Mode = "sub2big" THEN {<<c, d>> : c \in SubStylesMid, d \in SubStylesMid}
+         ELSE IF Profile = "c12" THEN      \* "rand": all shapes; "randf": programs that get a raster frame (no arcs: Raster.tla is polygonal)
+              {[i \in 1..PLen |-> Fix(Mk(f[i], RandomElement(GeomC12(Mode = "rand"))))] : f \in RandomSubset(Num, [1..PLen -> StyleSetC12])}
          ELSE {[i \in 1..PLen |-> Fix(f[i])] : f \in RandomSubset(Num, [1..PLen -> RawDraws])}
 GInit == gprog \in Progs /\ gdone = FALSE /\ IInit /\ l = 1 /\ mprog = <<>> /\ mlang = "" /\ mtrace = <<>>
 Brief(e) == [kind |-> e.kind, draw |-> e.draw, col |-> e.col, a |-> e.a, pen |-> e.pen, jk |-> e.jk, ml |-> e.ml, dash |-> e.dash, ph |-> e.ph, sim |-> e.sim]
